@@ -25,6 +25,7 @@ import (
 	"os"
 	"path/filepath"
 	"strings"
+	"sync/atomic"
 	"time"
 
 	"github.com/oauth2-proxy/oauth2-proxy/v7/pkg/apis/options"
@@ -101,10 +102,33 @@ func init() {
 				p.AllowQuerySemicolons = true
 			}},
 		}
+		// an upstream that takes its time: a download sent in pieces over a second, an upload read to its end
+		var slowUploadBytes atomic.Int64
+		slowSrv := httptest.NewServer(http.HandlerFunc(func(w http.ResponseWriter, r *http.Request) {
+			if r.Method == "POST" {
+				n, _ := io.Copy(io.Discard, r.Body)
+				slowUploadBytes.Store(n)
+				fmt.Fprintf(w, "received %d", n)
+				return
+			}
+			w.Header().Set("Content-Length", "10240")
+			w.WriteHeader(200)
+			for i := 0; i < 10; i++ {
+				w.Write([]byte(strings.Repeat(fmt.Sprint(i), 1024)))
+				if f, ok := w.(http.Flusher); ok {
+					f.Flush()
+				}
+				time.Sleep(100 * time.Millisecond)
+			}
+		}))
+		defer slowSrv.Close()
+		stopCtx, stopServer := context.WithCancel(context.Background())
+		defer stopServer()
 		for _, lk := range kinds {
 			cfg := proxyCfg{InjectRequest: defaultInject(), Htpasswd: map[string]string{"bob": "pw"}, SkipJwtBearer: true,
 				SkipAuthRoutes: []string{"^/files/"},
-				Upstreams:      []options.Upstream{{ID: "root", Path: "/", URI: "U:root"}, {ID: "files", Path: "/files/", URI: "file://" + dir}}}
+				Upstreams: []options.Upstream{{ID: "root", Path: "/", URI: "U:root"}, {ID: "files", Path: "/files/", URI: "file://" + dir},
+					{ID: "slow", Path: "/slow/", URI: slowSrv.URL}}}
 			lk.cfg(&cfg)
 			e, err := newEnv(c, cfg)
 			for attempt := 0; err != nil && attempt < 3; attempt++ {
@@ -119,7 +143,11 @@ func init() {
 			var cl *http.Client
 			switch lk.name {
 			case "http", "http-semicolons":
-				go e.proxy.Start()
+				if lk.name == "http" {
+					go e.proxy.server.Start(stopCtx) // (what Start does, with the context SIGTERM cancels in the harness's hands)
+				} else {
+					go e.proxy.Start()
+				}
 				base = "http://" + cfg.BindAddress
 				cl = &http.Client{Timeout: 20 * time.Second, CheckRedirect: noRedirect}
 			case "tls":
@@ -271,8 +299,65 @@ func init() {
 					}
 				}
 			}
+			// ---- C17: the operator stops the proxy (SIGTERM: a rolling restart) while exchanges are in flight.  The listener closes,
+			// the exchanges already accepted are relayed to their end: the download complete, the upload delivered in full
+			if lk.name == "http" {
+				type dl struct {
+					n      int
+					status int
+					err    error
+				}
+				dlc, ulc := make(chan dl, 1), make(chan dl, 1)
+				go func() {
+					req, _ := http.NewRequest("GET", base+"/slow/download", nil)
+					req.Host = tHost
+					req.Header.Set("Cookie", small)
+					resp, err := cl.Do(req)
+					if err != nil {
+						dlc <- dl{0, 0, err}
+						return
+					}
+					b, err := io.ReadAll(resp.Body)
+					resp.Body.Close()
+					dlc <- dl{len(b), resp.StatusCode, err}
+				}()
+				pr, pw := io.Pipe()
+				go func() {
+					for i := 0; i < 10; i++ {
+						pw.Write([]byte(strings.Repeat("u", 1024)))
+						time.Sleep(100 * time.Millisecond)
+					}
+					pw.Close()
+				}()
+				go func() {
+					req, _ := http.NewRequest("POST", base+"/slow/upload", pr)
+					req.Host = tHost
+					req.Header.Set("Cookie", small)
+					resp, err := cl.Do(req)
+					if err != nil {
+						ulc <- dl{0, 0, err}
+						return
+					}
+					io.Copy(io.Discard, resp.Body)
+					resp.Body.Close()
+					ulc <- dl{int(slowUploadBytes.Load()), resp.StatusCode, nil}
+				}()
+				time.Sleep(350 * time.Millisecond) // both exchanges are under way
+				stopServer()
+				d, up := <-dlc, <-ulc
+				c.casen("real|http|stop-in-flight", fmt.Sprintf("%d/%d %d/%d", d.status, d.n, up.status, up.n))
+				c.count("c17:stopped-with-exchanges-in-flight")
+				if d.err != nil || d.status != 200 || d.n != 10240 {
+					c.violation("C17", fmt.Sprintf("the proxy was told to stop (graceful shutdown) while a download was in flight: the client got %d of 10240 bytes (status %d, error %v) — the exchange was cut instead of relayed to its end", d.n, d.status, d.err),
+						in(map[string]interface{}{"bytes": d.n, "status": d.status, "error": fmt.Sprint(d.err)}))
+				}
+				if up.err != nil || up.status != 200 || up.n != 10240 {
+					c.violation("C17", fmt.Sprintf("the proxy was told to stop (graceful shutdown) while an upload was in flight: the upstream received %d of 10240 bytes (status %d, error %v)", up.n, up.status, up.err),
+						in(map[string]interface{}{"bytes_at_upstream": up.n, "status": up.status, "error": fmt.Sprint(up.err)}))
+				}
+			}
 			e.close()
 		}
-		c.close([]string{"listener:http", "listener:tls", "listener:unix", "listener:h2-front", "c19:real-request", "c10:real-5+cookies", "c01:unix-peer", "proto:HTTP/2.0", "proto:HTTP/1.1", "c17:real-target", "listener:http-semicolons"})
+		c.close([]string{"c17:stopped-with-exchanges-in-flight", "listener:http", "listener:tls", "listener:unix", "listener:h2-front", "c19:real-request", "c10:real-5+cookies", "c01:unix-peer", "proto:HTTP/2.0", "proto:HTTP/1.1", "c17:real-target", "listener:http-semicolons"})
 	})
 }
